@@ -13,7 +13,7 @@ using namespace vfc;
 using vf::CaseResult;
 using vf::Rng;
 
-enum : unsigned { O_C02 = 2, O_C05 = 16, O_C09 = 64 };
+enum : unsigned { O_C02 = 2, O_C04 = 8, O_C05 = 16, O_C09 = 64 };
 
 static long long frozenRef(const Circuit &state, const std::vector<CellOrientation> &orient) {
   Circuit f = state;
@@ -21,15 +21,44 @@ static long long frozenRef(const Circuit &state, const std::vector<CellOrientati
   return refHpwl(f);
 }
 
-static void optCase(Rng &rng, CaseResult &r, unsigned mask) {
+static void optCase(Rng &rng, CaseResult &r, unsigned mask, bool reorderOnly = false) {
   std::string profile = rng.pick(std::vector<std::string>{"general", "rowhigh-any", "nets", "obstruction", "polarity", "multirow", "turned", "crowded", "big"});
+  if ((mask & O_C04) && rng.chance(0.7)) profile = "polarity";
   GenOpts o = makeProfile(rng, profile);
   o.utilHi = 0.8;
   o.farInit = false;
+  // reordering over several rows needs many cells in few rows to have windows with several regions per row
+  bool reorderHeavy = rng.chance((mask & O_C04) ? 0.6 : (mask & O_C05) ? 0.5 : 0.3);
+  if (reorderHeavy && profile != "crowded" && profile != "big") { o.minCells = std::max(o.minCells, 14); o.maxCells = std::max(o.maxCells, 30); o.maxRows = std::min(o.maxRows, 4); }
+  if (reorderOnly) {
+    // windows of the reordering pass: few rows, row-high cells with gaps between them, many nets
+    profile = rng.chance(0.5) ? "polarity" : "general";
+    o = makeProfile(rng, profile);
+    profile += "+sparse-rows";
+    o.farInit = false;
+    o.multiRow = false;
+    o.maxRows = (int)rng.range(1, 4);
+    o.minCells = 5;
+    o.maxCells = (int)rng.range(6, 18);
+    o.utilLo = 0.15;
+    o.utilHi = 0.7;
+    o.maxNets = 30;
+    o.maxFixed = 3;
+    reorderHeavy = true;
+  }
   Circuit c0 = genCircuit(rng, o);
   if (rng.chance(0.15)) { randomFarTranslation(rng, c0); profile += "+faraway"; }
   std::string pdesc;
   ColoquinteParameters params = genParams(rng, false, &pdesc);
+  // the passes need a legalized circuit: draw again (a bounded number of times) when legalization refuses this one
+  for (int attempt = 0; attempt < 3; ++attempt) {
+    bool ok = true;
+    try { Circuit t = c0; t.legalize(params); } catch (const std::exception &) { ok = false; }
+    if (ok) break;
+    r.count("redrawn_after_legalize_threw");
+    c0 = genCircuit(rng, o);
+    params = genParams(rng, false, &pdesc);
+  }
   Features f = features(c0);
   int nOps = rng.chance(0.1) ? (int)rng.range(9, 24) : (int)rng.range(1, 8);
   struct Op { int kind, a, b; };
@@ -38,9 +67,10 @@ static void optCase(Rng &rng, CaseResult &r, unsigned mask) {
   for (int k = 0; k < nOps; ++k) {
     Op op;
     op.kind = (int)rng.range(0, 3);
+    if (reorderHeavy && rng.chance(reorderOnly ? 0.85 : 0.5)) op.kind = 3;
     if (op.kind == 0 || op.kind == 1) { op.a = (int)rng.range(0, 4); op.b = (int)rng.range(0, 10); }
     else if (op.kind == 2) { op.a = (int)rng.range(1, 6); op.b = (int)rng.range(2, 40); }
-    else { op.a = (int)rng.range(1, 3); op.b = (int)rng.range(2, 5); }
+    else { op.a = (int)rng.range(1, reorderHeavy ? 4 : 3); op.b = (int)rng.range(2, reorderHeavy ? 7 : 5); }
     ops.push_back(op);
     od << (op.kind == 0 ? "swaps" : op.kind == 1 ? "inserts" : op.kind == 2 ? "shifts" : "reorder") << "(" << op.a << "," << op.b << ") ";
   }
@@ -91,6 +121,10 @@ static void optCase(Rng &rng, CaseResult &r, unsigned mask) {
         std::string fd = frameDiff(c, e, false);
         if (!fd.empty()) r.fail("C02:export-changed-frame", fd);
       }
+      if (mask & O_C04) {
+        std::string pe = checkPolarity(e, c0.cellOrientation_);
+        if (!pe.empty()) r.fail("C04:after-pass", "after pass " + std::to_string(k + 1) + " (" + od.str() + "): " + pe);
+      }
       if (mask & O_C05) {
         if (nv > v) r.fail("C05:placer-value-increased", "pass " + std::to_string(k + 1) + " of (" + od.str() + "): value " + std::to_string(v) + " -> " + std::to_string(nv));
       }
@@ -106,7 +140,7 @@ static void optCase(Rng &rng, CaseResult &r, unsigned mask) {
     if (improved) r.count("runs_improved");
     r.sig = f.str() + ":" + kinds + (moved ? "m" : "s");
   } catch (const std::exception &e) {
-    r.fail((mask & O_C02) ? "C02:optimiser-threw" : (mask & O_C05) ? "C05:optimiser-threw" : "C09:optimiser-threw", std::string(e.what()) + " during (" + od.str() + ")");
+    r.fail((mask & O_C02) ? "C02:optimiser-threw" : (mask & O_C04) ? "C04:optimiser-threw" : (mask & O_C05) ? "C05:optimiser-threw" : "C09:optimiser-threw", std::string(e.what()) + " during (" + od.str() + ")");
   }
   if (r.needSample()) r.sample = sample();
 }
@@ -344,6 +378,11 @@ static void walkCase(Rng &rng, CaseResult &r) {
 int main(int argc, char **argv) {
   std::vector<vf::Part> parts;
   parts.push_back({"c02.opt", [](uint64_t, Rng &rng, CaseResult &r) { optCase(rng, r, O_C02); }, 20});
+  parts.push_back({"c04.opt", [](uint64_t, Rng &rng, CaseResult &r) { optCase(rng, r, O_C04); }, 30});
+  parts.push_back({"c02.reorder", [](uint64_t, Rng &rng, CaseResult &r) { optCase(rng, r, O_C02, true); }, 30});
+  parts.push_back({"c04.reorder", [](uint64_t, Rng &rng, CaseResult &r) { optCase(rng, r, O_C04, true); }, 30});
+  parts.push_back({"c05.reorder", [](uint64_t, Rng &rng, CaseResult &r) { optCase(rng, r, O_C05, true); }, 30});
+  parts.push_back({"c09.reorder", [](uint64_t, Rng &rng, CaseResult &r) { optCase(rng, r, O_C09, true); }, 30});
   parts.push_back({"c05.opt", [](uint64_t, Rng &rng, CaseResult &r) { optCase(rng, r, O_C05); }, 20});
   parts.push_back({"c09.opt", [](uint64_t, Rng &rng, CaseResult &r) { optCase(rng, r, O_C09); }, 20});
   parts.push_back({"c02.ds.closure", [](uint64_t idx, Rng &, CaseResult &r) { closureCase(idx, r); }, 300});
